@@ -8,6 +8,7 @@ int __is_locked = -1;
 #endif
 
 #include <igris/dprint.h>
+#include <igris/util/verif_hook.h>
 
 static std::recursive_mutex mtx;
 // static std::mutex mtx;
@@ -42,6 +43,7 @@ void system_lock()
     }
 
     ++count;
+    IGRIS_VERIF_POINT("sl_acq", 0, count);
     assert(count < 10);
 }
 
@@ -59,6 +61,7 @@ void system_unlock()
 {
 #endif
     --count;
+    IGRIS_VERIF_POINT("sl_rel", 0, count);
     assert(count >= 0);
 
 #if __has_include(<unistd.h>)
@@ -72,6 +75,7 @@ struct syslock_save_pair system_lock_save()
 {
     auto ret = syslock_save_pair{count, 0};
     assert(count != 0);
+    IGRIS_VERIF_POINT("sl_save", 0, count);
 
     while (count--)
     {
@@ -93,6 +97,7 @@ void system_lock_restore(struct syslock_save_pair save)
         curcount++;
         mtx.lock();
     }
+    IGRIS_VERIF_POINT("sl_restore", 0, count);
 }
 
 void syslock_reset() { count = 0; }
